@@ -1,6 +1,9 @@
 package embedded
 
 import (
+	"encoding/binary"
+	"encoding/json"
+	"fmt"
 	"strconv"
 
 	"reduction.dev/reduction/connectors"
@@ -25,19 +28,27 @@ type SourceSplitter struct {
 }
 
 func (s *SourceSplitter) Start(ckpt *snapshotpb.SourceCheckpoint) error {
-	// Embedded SourceSplitter does not checkpoint
-	if ckpt != nil {
-		panic("embedded source splitter does not support checkpointing")
+	// The readers checkpoint their splits as JSON, restore the cursors from them
+	cursors := make(map[string][]byte)
+	for _, state := range ckpt.GetSplitStates() {
+		var sp struct {
+			Cursor  int
+			SplitID string
+		}
+		if err := json.Unmarshal(state, &sp); err != nil {
+			return fmt.Errorf("embedded.SourceSplitter split state: %w", err)
+		}
+		cursors[sp.SplitID] = binary.BigEndian.AppendUint64(nil, uint64(sp.Cursor))
 	}
 
-	// Create splits all with nil cursors
+	// Create splits with the checkpointed cursors if there are any
 	sourceSplits := make([]*workerpb.SourceSplit, s.splitCount)
 	for splitIndex := range iteru.Times(s.splitCount) {
 		splitID := strconv.Itoa(splitIndex)
 		sourceSplits[splitIndex] = &workerpb.SourceSplit{
 			SplitId:  splitID,
 			SourceId: "TBD",
-			Cursor:   nil,
+			Cursor:   cursors[splitID],
 		}
 	}
 
